@@ -303,6 +303,12 @@ func insider(rng *rand.Rand, challenge, proof string, mHasSecret bool) (register
 		msec = "s"
 	}
 	mn := mkNode(w, "M", 1, "u", msec)
+	return insiderConn(rng, v, mn, mn.ID.PublicAddress, challenge, proof)
+}
+
+// insiderConn: one connection of the scripted participant M to the victim, presenting `claim` as its identity (its
+// own public address, or somebody else's) and signing everything with M's own key.
+func insiderConn(rng *rand.Rand, v, mn *world.Node, claim m.PublicAddress, challenge, proof string) (registered bool, detail string) {
 	ca, cb := net.Pipe()
 	defer ca.Close()
 	url, _ := m.ParsePeeringURL("tcp://127.0.0.1:47369")
@@ -352,8 +358,8 @@ func insider(rng *rand.Rand, challenge, proof string, mHasSecret bool) (register
 	if challenge == "cV" {
 		myChallenge = cV
 	}
-	rq, _ := cbor.Marshal(&pReq{RouterVersion: "verif", Universe: "u", Address: mn.ID.PublicAddress, Challenge: myChallenge, LinkVersion: 1, TunMTU: 1400})
-	f1, err := mn.Builder.NewFrameV1(mn.ID.IP, m.RouterAddress, frame.RouterPing, nil, rq, nil)
+	rq, _ := cbor.Marshal(&pReq{RouterVersion: "verif", Universe: "u", Address: claim, Challenge: myChallenge, LinkVersion: 1, TunMTU: 1400})
+	f1, err := mn.Builder.NewFrameV1(claim.IP, m.RouterAddress, frame.RouterPing, nil, rq, nil)
 	if err != nil {
 		return fail("build request", err)
 	}
@@ -395,12 +401,12 @@ func insider(rng *rand.Rand, challenge, proof string, mHasSecret bool) (register
 		d := append([]byte("u"), cV...)
 		d = append(d, []byte("s")...)
 		d = append(d, v.ID.IP.AsSlice()...)
-		d = append(d, mn.ID.IP.AsSlice()...)
+		d = append(d, claim.IP.AsSlice()...)
 		sum := blake3.Sum256(d)
 		resp.UniverseAuth = sum[:]
 	}
 	rb, _ := cbor.Marshal(&resp)
-	f2, err := mn.Builder.NewFrameV1(mn.ID.IP, v.ID.IP, frame.RouterPing, nil, rb, nil)
+	f2, err := mn.Builder.NewFrameV1(claim.IP, v.ID.IP, frame.RouterPing, nil, rb, nil)
 	if err != nil {
 		return fail("build response", err)
 	}
@@ -423,7 +429,7 @@ func insider(rng *rand.Rand, challenge, proof string, mHasSecret bool) (register
 		}
 	}
 	ab, _ := cbor.Marshal(&pAck{Ack: true})
-	f3, err := mn.Builder.NewFrameV1(mn.ID.IP, v.ID.IP, frame.RouterPing, nil, ab, nil)
+	f3, err := mn.Builder.NewFrameV1(claim.IP, v.ID.IP, frame.RouterPing, nil, ab, nil)
 	if err != nil {
 		return fail("build ack", err)
 	}
@@ -435,7 +441,7 @@ func insider(rng *rand.Rand, challenge, proof string, mHasSecret bool) (register
 	}
 	select {
 	case r := <-done:
-		registered = r.l != nil && r.err == nil && v.Peer.GetLink(mn.ID.IP) != nil
+		registered = r.l != nil && r.err == nil && v.Peer.GetLink(claim.IP) != nil
 		detail = fmt.Sprint(r.err)
 		if r.l != nil {
 			r.l.Close(nil)
@@ -996,6 +1002,77 @@ func run(c *vf.Ctx) {
 		c.Stage("R-relay", map[string]any{"cases": n})
 	}
 
+	// ---- a participant that claims somebody else's address, over a history of connections (HandshakeImpersonate)
+	for _, hc := range []struct {
+		cfg   string
+		want  string
+		known bool
+	}{{"HandshakeImpersonate_TRUE_FALSE.cfg", "", false}, {"HandshakeImpersonate_TRUE_TRUE.cfg", "", true}, {"HandshakeImpersonate_FALSE_FALSE.cfg", "AuthOnRegister", false}} {
+		hres, err := c.TLC("HandshakeImpersonate", hc.cfg, vf.TLCOpts{Workers: 1})
+		if err != nil {
+			c.Fatal("M impersonate %s: %v", hc.cfg, err)
+		}
+		c.AddModel(hres.Distinct, hres.Generated)
+		if hres.Violated != hc.want {
+			c.Broken("M impersonate %s: expected violated=%q, TLC says %q", hc.cfg, hc.want, hres.Violated)
+		}
+		if hc.want != "" {
+			continue
+		}
+		// every history of three connections of the model, against one persistent victim each
+		n := 0
+		for hist := 0; hist < 8; hist++ {
+			for _, sec := range []string{"", "s"} {
+				w := world.NewWorld()
+				v, mn, pn := mkNode(w, "V", 0, "u", sec), mkNode(w, "M", 1, "u", sec), mkNode(w, "P", 2, "u", sec)
+				if hc.known {
+					pp := pn.ID.PublicAddress
+					_ = v.St.AddRouter(&pp)
+				}
+				for k := 0; k < 3; k++ {
+					claim, cl := pn.ID.PublicAddress, "genuine"
+					if hist>>k&1 == 1 {
+						cl = "swapped"
+						claim.PublicKey = mn.ID.PublicKey
+					}
+					time.Sleep(3 * time.Millisecond)
+					proof := "none"
+					if sec != "" {
+						proof = "own"
+					}
+					reg, detail := insiderConn(r.rng, v, mn, claim, "cM", proof)
+					bound := "none"
+					var key []byte
+					if sess := v.St.GetSession(pn.ID.IP); sess != nil && sess.Address() != nil {
+						key = sess.Address().PublicKey
+					} else if rec, err := v.Store.GetRouter(pn.ID.IP); err == nil && rec != nil && rec.Address != nil {
+						key = rec.Address.PublicKey
+					}
+					switch {
+					case key == nil:
+					case bytes.Equal(key, pn.ID.PublicKey):
+						bound = "P"
+					case bytes.Equal(key, mn.ID.PublicKey):
+						bound = "M"
+					default:
+						bound = "other"
+					}
+					if !reg && v.Peer.GetLink(pn.ID.IP) != nil {
+						reg = true
+					}
+					c.Eval(1)
+					n++
+					c.Distinct(fmt.Sprintf("impersonate|%v|%d|%s|%d", hc.known, hist, sec, k))
+					events = append(events, map[string]any{"ev": "impersonate", "claim": cl, "conn": k + 1, "known": hc.known, "secret": sec != "", "history": hist, "registered": reg, "bound": bound, "detail": detail})
+					if reg {
+						break
+					}
+				}
+			}
+		}
+		c.Stage("R-impersonate/"+hc.cfg, map[string]any{"connections": n})
+	}
+
 	for len(events) > 0 {
 		rejectAt, inv, tres, err := c.TraceCheck("Handshake_Trace", "Handshake_Trace.cfg", events, vf.TLCOpts{Timeout: 20 * time.Minute})
 		if err != nil {
@@ -1017,6 +1094,12 @@ func run(c *vf.Ctx) {
 		if ev["ev"] == "relay" {
 			key = vf.Key("relay", ev["vrole"], ev["challenge"], ev["resp"], ev["ack"])
 			c.Violation(key, fmt.Sprintf("a link to a router that never spoke on the connection was registered: its response / ack, made for another router in a handshake running at the same time, was accepted: %v", ev), ev, nil)
+			events = events[rejectAt:]
+			continue
+		}
+		if ev["ev"] == "impersonate" {
+			key = vf.Key("impersonate", ev["claim"], ev["conn"], ev["known"], ev["registered"], ev["bound"])
+			c.Violation(key, fmt.Sprintf("a router that signs with its own key claimed the address of a router that never took part (connection %v of history %v, claim %v): link registered under that address: %v, key bound to that address at the victim afterwards: %v (%v)", ev["conn"], ev["history"], ev["claim"], ev["registered"], ev["bound"], ev["detail"]), ev, nil)
 			events = events[rejectAt:]
 			continue
 		}
